@@ -285,7 +285,9 @@ def _bytes_shard(arg):
 # ---------------------------------------------------------------------------
 # (v) call-order independence: configuration A evaluated, then configuration B on a fresh state
 # ---------------------------------------------------------------------------
-ORDER_DIMS = ((6, 6, 3, 3), (5, 7, 5, 7), (8, 4, 4, 2), (12, 10, 6, 10), (1, 3, 2, 2))
+ORDER_DIMS = ((6, 6, 3, 3), (5, 7, 5, 7), (8, 4, 4, 2), (12, 10, 6, 10), (1, 3, 2, 2),
+              # dimensions beyond the exact range of a double (2^53) and of a machine word
+              ((1 << 53) + 1, (1 << 53) + 3, (1 << 52) + 1, (1 << 52) + 1), ((1 << 64) + 5, (1 << 70) + 9, (1 << 63) + 3, (1 << 69) + 5), ((1 << 200) + 7, 3, (1 << 199) + 3, 2))
 ORDER_SLICES = ((1, 1), (2, 3))
 ORDER_DEPTHS = [(d, dh) for d in range(4) for dh in range(4)]
 
